@@ -5,7 +5,7 @@ import math
 RULE = ("random target spaces S (degree 0..3, non-uniform knots, repeated knots) and source spline curves C (degree 0..3, other knot vectors, "
         "scalar/vector points) on the same interval; C inside S (S refines C's space); interpolation node sets (subsets of S's knots, <= npts).  "
         "Non-trivial: non-uniform or multi-span S; distinct = distinct (S, C, nodes)."
-        " Also: receivers with positive weights W and polynomial sources C with C*W in the spline space (C in S: exact reproduction, error 0, weights kept); the float twin of every case (numpy solves, Chebyshev quadrature) against the exact projection.")
+        " Also: interpolation at the Greville abscissae of S (all of them: square non-symmetric collocation; or a subset); receivers with positive weights W and polynomial sources C with C*W in the spline space (C in S: exact reproduction, error 0, weights kept); the float twin of every case (numpy solves, Chebyshev quadrature) against the exact projection.")
 EXPLANATION = ("L3: with the implementation's D the exact integrals <C-D, N_i> (all basis functions of S) are computed from the span polynomials "
                "(`rf.inner`), as are integral(C-D)^2 (`rf.sqdist`); orthogonality, error identity (factor 1 or 1/2), non-negativity, zero-iff and "
                "reproduction are exact comparisons; with nodes: D(z)=C(z) and the moment vector lies in the row space of the constraint matrix "
@@ -50,6 +50,8 @@ def run_ratrecv(ctx, case):
         return
     err = frac(r[1]) if not isinstance(r[1], np.ndarray) else frac(r[1].item())
     D = curve_state(dst)
+    m = drv.call("curve.fitcurve", list(S), None, list(WA), *curve_args(*s0), nodes)
+    l2(rec, "curve.fitcurve", case, (D, err), m, m[0] == "ok" and model_curve_state(m[1][0]) == D and m[1][1] == err)
     if D[2] is None or [frac(w) for w in D[2]] != WA:
         rec.violation("fit_curve of a polynomial source replaced the weights of the receiving curve (its space S)", case,
                       observed=ser(D[2]), expected=ser(WA))
@@ -174,8 +176,13 @@ def run(ctx):
         run_case(ctx, ser(dict(kind="ratrecv", U=U, P=rand_points(rng, kv_info(U)[1], dim), UW=UW, PW=PW, nodes=nodes)))
     for i in range(budget(ctx, 50, 700)):
         interval = rand_interval(rng)
-        label = rng.choice(["generic", "generic", "inside", "nodes", "nodes"])
+        label = rng.choice(["generic", "generic", "inside", "nodes", "nodes", "nodes-greville", "nodes-greville"])
         S = rand_kv(rng, pmax=3, nintmax=3, interval=interval)
+        if label == "nodes-greville":
+            # nodes that are not knots: all of the Greville abscissae of S (as many nodes as control points: pure interpolation,
+            # the collocation matrix is square and not symmetric) or a subset of them; S continuous so that they are distinct
+            p_ = rng.randint(1, 3)
+            S = rand_kv(rng, p=p_, nint=rng.randint(0, 3), maxmult=p_, interval=interval)
         ps, ns, ks = kv_info(S)
         dim = rng.choice([1, 1, 2])
         nodes = None
@@ -187,6 +194,12 @@ def run(ctx):
                 U.remove(x)
         else:
             U = rand_kv(rng, pmax=3, nintmax=2, interval=interval)
+        if label == "nodes-greville":
+            grev = [sum(S[i + 1: i + ps + 1], F(0)) / ps for i in range(ns)]
+            if len(set(grev)) == ns:
+                nodes = grev if rng.random() < 0.6 else sorted(rng.sample(grev, rng.randint(1, ns)))
+            else:
+                label = "generic"
         if label == "nodes":
             if ps == 0:
                 label = "generic"
